@@ -905,6 +905,52 @@ class Emit:
             out.append(self.tyid(catch_name))
         return out
 
+    def caught_pointer_unused(self, lp):
+        """True when no handler reached from landing pad `lp` can look at the exception object: the exception pointer only
+        flows (through phi / insertvalue / extractvalue) into __cxa_begin_catch calls whose result has no use, into resume or
+        into __clang_call_terminate. Then catching through a base at a non-zero offset needs no pointer adjustment
+        (e.g. `catch (const std::exception&) { cleanup; throw; }`). Anything else keeps the 'unmodelled' report."""
+        allins = [i for inss in self.blocks.values() for i in inss]
+        def uses(name, i):
+            body = i['raw'].split('=', 1)[1] if i.get('res') else i['raw']
+            return re.search(re.escape(name) + r'(?![\w.$-])', body) is not None
+        if not lp.get('res'):
+            return False
+        tracked = {lp['res']}
+        work = [lp['res']]
+        while work:
+            v = work.pop()
+            for i in allins:
+                if i is lp or not uses(v, i):
+                    continue
+                op = i['op']
+                if op == 'extractvalue':
+                    if i.get('idx') == [1]:
+                        continue  # selector
+                    if i.get('idx') != [0]:
+                        return False
+                elif op in ('phi', 'insertvalue'):
+                    pass
+                elif op == 'resume':
+                    continue
+                elif op in ('call', 'invoke'):
+                    cal = i.get('callee')
+                    cn = cal.name[1:] if cal is not None and getattr(cal, 'kind', None) == 'global' else None
+                    if cn == '__clang_call_terminate':
+                        continue
+                    if cn != '__cxa_begin_catch':
+                        return False
+                    r = i.get('res')
+                    if r and any(uses(r, j) for j in allins if j is not i):
+                        return False
+                    continue
+                else:
+                    return False
+                r = i.get('res')
+                if r and r not in tracked:
+                    tracked.add(r); work.append(r)
+        return True
+
     # ---- functions
     def ext_cty(self, t):
         return 'uint8_t*' if isinstance(self.resolve(t), PtrT) else self.cty(t)
@@ -1390,7 +1436,7 @@ class Emit:
                 else:
                     out.append('if (%s) %s.f1 = %d;' % (' || '.join('verif_exc_type == %d' % i for i in self.subclass_ids(nm)), R, self.tyid(nm)))
                     adj = self.subclass_ids(nm, adjusted=True)
-                    if adj:
+                    if adj and not self.caught_pointer_unused(ins):
                         # only when this clause is the one finally selected (an earlier clause naming the exact type wins)
                         conds.append('if ((%s) && %s.f1 == %d) verif_unmodelled("catch through a base class at non-zero offset");' % (' || '.join('verif_exc_type == %d' % i for i in adj), R, self.tyid(nm)))
             out += conds
